@@ -183,6 +183,12 @@ func c17Exec(tc *c17Case, msgs [][]byte, stream []byte, states map[[3]int]struct
 			frame := c17Frame(tc.Codec, msgs[idx])
 			complete := off+len(frame) <= len(stream)
 			size := len(msgs[idx])
+			if tc.Codec == "json" {
+				// white space in front of a JSON message (the separator of a newline-delimited
+				// stream, glued to the message here) belongs to no message: the limit is about the
+				// message's own encoding (C08 states sizes that way)
+				size = len(bytes.TrimLeft(msgs[idx], " \t\r\n"))
+			}
 			if size > tc.Limit {
 				// Over the limit: must be an error (never truncated, never EOF-clean success).
 				if err == nil {
